@@ -81,8 +81,8 @@ def client_sees_rejection(ctx, F):
         b = F.inlined(b0)
         for sw in K.find_variant_switches(b, FRAME):
             arms, adt, pl, other, allv = K.arm_map(b, sw)
-            if "Error" not in arms:
-                continue
+            if "Error" not in arms or not K.aggregates(b, SE, arms["Error"]):
+                continue        # not a site that turns an error frame into an error value
             n += 1
             ctx.touch(b0)
             reg = arms["Error"]
